@@ -9,6 +9,7 @@ package main
 import (
 	"encoding/json"
 	"fmt"
+	"reflect"
 
 	"github.com/synnaxlabs/cesium/internal/unary"
 	"github.com/synnaxlabs/cesium/verifh/cesh"
@@ -19,6 +20,9 @@ type cmd struct {
 	C string `json:"c"` // seek_first seek_last seek_le seek_ge next prev next_auto prev_auto set_bounds
 	A int64  `json:"a"`
 	B int64  `json:"b"`
+	// F > 0 arms a one-shot read fault before the command: the F-th ReadAt on a data file of
+	// the iterated channel's INDEX channel fails once (disarmed again after the command).
+	F int `json:"f"`
 }
 
 type tcase struct {
@@ -37,6 +41,11 @@ type out struct {
 	Err   int        `json:"err"`
 	Ser   []cesh.Ser `json:"ser"`
 	Msg   string     `json:"msg,omitempty"`
+	// Fired: the scripted read fault armed for this command was hit.
+	Fired bool `json:"fired,omitempty"`
+	// Late: the series of the SAME frame (kept by reference, not copied) decoded again after
+	// the whole command sequence has run; only set when it differs from Ser.
+	Late []cesh.Ser `json:"late,omitempty"`
 }
 
 type result struct {
@@ -85,8 +94,17 @@ func runCase(c tcase) (res result) {
 	}
 	defer func() { _ = it.Close() }()
 	ctx := env.Ctx
+	idxKey := ch.Index
+	if idxKey == 0 {
+		idxKey = ch.Key
+	}
+	// every frame handed out by Value() is kept, as a consumer collecting a traversal does
+	kept := make([][]telem.Series, 0, len(c.Ops))
 	for _, o := range c.Ops {
 		var ok bool
+		if o.F > 0 {
+			env.Fault.Arm(idxKey, o.F)
+		}
 		switch o.C {
 		case "seek_first":
 			ok = it.SeekFirst(ctx)
@@ -108,8 +126,9 @@ func runCase(c tcase) (res result) {
 			it.SetBounds(telem.TimeRange{Start: telem.TimeStamp(o.A), End: telem.TimeStamp(o.B)})
 			ok = true
 		}
+		fired := env.Fault.Disarm()
 		v := it.View()
-		r := out{Ok: ok, Valid: it.Valid(), View: [2]int64{int64(v.Start), int64(v.End)}, Ser: []cesh.Ser{}}
+		r := out{Ok: ok, Valid: it.Valid(), View: [2]int64{int64(v.Start), int64(v.End)}, Ser: []cesh.Ser{}, Fired: fired}
 		if e := it.Error(); e != nil {
 			r.Err = cesh.ErrClass(e)
 			r.Msg = e.Error()
@@ -117,10 +136,22 @@ func runCase(c tcase) (res result) {
 				r.Msg = r.Msg[:120]
 			}
 		}
-		for _, s := range it.Value().SeriesSlice() {
+		held := it.Value().SeriesSlice()
+		for _, s := range held {
 			r.Ser = append(r.Ser, cesh.SeriesOf(ch.DT, s))
 		}
+		kept = append(kept, held)
 		res.Outs = append(res.Outs, r)
+	}
+	// the traversal is over: look at the frames the caller still holds
+	for n, held := range kept {
+		late := []cesh.Ser{}
+		for _, s := range held {
+			late = append(late, cesh.SeriesOf(ch.DT, s))
+		}
+		if !reflect.DeepEqual(late, res.Outs[n].Ser) {
+			res.Outs[n].Late = late
+		}
 	}
 	return
 }
